@@ -29,9 +29,9 @@ RULE = (
     "markup classes, outline level, TOC position, fill index, history step)."
 )
 SHARDS = {"quick": 16, "thorough": 16}
-TIMEOUT = {"quick": 400, "thorough": 3600}
+TIMEOUT = {"quick": 400, "thorough": 7200}
 MIN_EVALS = {"quick": 12000, "thorough": 200000}
-CASES = {"quick": 500, "thorough": 8000}
+CASES = {"quick": 500, "thorough": 60000}
 ASSUMPTIONS = [
     "skipped levels: missing ancestors count as 1 (the convention TOC._header_numbering and scripts/headers.py both document); another convention is not demanded",
     "the heading's text is its ODF reading with footnotes/annotations/frames opaque",
